@@ -416,6 +416,7 @@ func (u *Unit) alloc(st *State, prefix string) Term {
 	} else {
 		rt.allocSyms[r] = true
 	}
+	allocSymsNow = u.root().allocSyms
 	st.assume(tAnd(tEq(r, st.frontier), tLt("0", r)))
 	nf := u.fresh("frontier", SInt)
 	st.assume(tEq(nf, tAdd(st.frontier, "1")))
